@@ -429,6 +429,8 @@ class ListLogger(CallTraceLogger):
 
 
 SESSION_SRC = "def count(x):\n    return x\n\ndef label(x):\n    return str(x)\n\ndef price(x):\n    return x * 1.5\n\ndef total(x):\n    return [x]\n"
+# ... and a function whose code has no source file (generated code: what dataclasses, attrs and template engines produce)
+SESSION_SRC += "exec(compile('def made(x):\\n    return (x,)\\n', '<generated>', 'exec'), globals())\n"
 
 
 def session_sequence(ctx, scratch, subsets):
@@ -450,7 +452,7 @@ def session_sequence(ctx, scratch, subsets):
     try:
         importlib.invalidate_caches()
         mod = importlib.import_module(name)
-        fns = {n: getattr(mod, n) for n in ("count", "label", "price", "total")}
+        fns = {n: getattr(mod, n) for n in ("count", "label", "price", "total", "made")}
         ctx.case(spec, len({frozenset(s) for s in subsets}) > 1, ["session-sequence"])
         state = {}
 
@@ -633,7 +635,7 @@ def shard(ctx):
             core.run_hypothesis(ctx, f2, 25 if q else 200, salt=2)
 
             def f4(ctx):
-                names = ["count", "label", "price", "total"]
+                names = ["count", "label", "price", "total", "made"]
 
                 @given(st.lists(st.lists(st.sampled_from(names), max_size=4, unique=True), min_size=2, max_size=5))
                 def test(subsets):
